@@ -321,8 +321,8 @@ func init() {
 				core.FailStops{Fn: mpm + "checkExpireValid", Callee: []string{"types.(*Transaction).IsExpire"}, Fail: core.OTrue, Idx: -1, Forbidden: core.SinkPred{Label: "return true", Match: func(fl *core.Flow, n *core.GNode) bool {
 					return n.Kind == core.KReturn && core.ClassifyReturn(fl, n, -1) != core.False
 				}}, Min: 1, Name: "IsExpire=true"}.Check(r)
-				core.CallArgs{Fn: mpm + "checkExpireValid", Callee: []string{"types.(*Transaction).IsExpire"}, What: "expiry judged for the next block (height+1)",
-					Args: map[int]core.ExprPred{1: core.PlusOne(core.CallsAny("types.(*Header).GetHeight"))}, Min: 1}.Check(r)
+				core.CallArgs{Fn: mpm + "checkExpireValid", Callee: []string{"types.(*Transaction).IsExpire"}, What: "expiry judged for the next block (height+1) and the header's block time",
+					Args: map[int]core.ExprPred{1: core.PlusOne(core.CallsAny("types.(*Header).GetHeight")), 2: core.DerivedFromCall("types.(*Header).GetBlockTime")}, Min: 1}.Check(r)
 				// checkLevelFee
 				core.RejectWhen{Fn: mpm + "checkLevelFee", Name: "tx.Fee < tiered total fee", L: core.IsObj("types.Transaction.Fee"), R: core.FromCall(0, "types.(*TransactionCache).GetTotalFee"), Rel: token.LSS, Sentinel: "types.ErrTxFeeTooLow"}.Check(r)
 				// checkSign
@@ -397,8 +397,8 @@ func init() {
 						FailCalls: []core.FailCall{{Callee: core.Names(mp + "isExpired"), Idx: -1, Outcome: core.OTrue}},
 						AssumeObj: map[types.Object]core.Tri{f.Param(2): core.False}}}.Check(r)
 				}
-				core.CallArgs{Fn: mpm + "filterTxList", Deep: true, Callee: []string{mp + "isExpired"}, What: "expiry judged for the next block (height+1)",
-					Args: map[int]core.ExprPred{2: core.PlusOne(core.CallsAny("types.(*Header).GetHeight"))}, Min: 1}.Check(r)
+				core.CallArgs{Fn: mpm + "filterTxList", Deep: true, Callee: []string{mp + "isExpired"}, What: "expiry judged for the walked entry, the next block (height+1) and the header's block time",
+					Args: map[int]core.ExprPred{1: litParam(0), 2: core.PlusOne(core.CallsAny("types.(*Header).GetHeight")), 3: core.DerivedFromCall("types.(*Header).GetBlockTime")}, Min: 1}.Check(r)
 				// exclusion keyed by the entry's hash
 				// count bound stops the walk
 				core.RejectWhen{Fn: cb, Spec: &core.FlowSpec{Assume: func(c *core.Ctx, e ast.Expr) core.Tri {
@@ -520,8 +520,19 @@ func init() {
 				core.FailStops{Fn: mp + "isExpired", Callee: []string{"types.(*Transaction).IsExpire"}, Fail: core.OTrue, Idx: -1, Forbidden: core.SinkPred{Label: "return false", Match: func(fl *core.Flow, n *core.GNode) bool {
 					return n.Kind == core.KReturn && core.ClassifyReturn(fl, n, -1) != core.True
 				}}, Min: 1, Name: "IsExpire=true"}.Check(r)
-				core.CallArgs{Fn: mpm + "removeExpired", Callee: []string{mpc + "removeExpiredTx"}, What: "expiry sweep judged for the next block (height+1)",
-					Args: map[int]core.ExprPred{1: core.PlusOne(core.CallsAny("types.(*Header).GetHeight"))}, Min: 1}.Check(r)
+				core.CallArgs{Fn: mpm + "removeExpired", Callee: []string{mpc + "removeExpiredTx"}, What: "expiry sweep judged for the next block (height+1) and the header's block time",
+					Args: map[int]core.ExprPred{1: core.PlusOne(core.CallsAny("types.(*Header).GetHeight")), 2: core.DerivedFromCall("types.(*Header).GetBlockTime")}, Min: 1}.Check(r)
+				core.CallArgs{Fn: mpc + "removeExpiredTx", Deep: true, Callee: []string{mp + "isExpired"}, What: "parameters passed through in order",
+					Args: map[int]core.ExprPred{0: core.IsObj("param:0"), 1: litParam(0), 2: core.IsObj("param:1"), 3: core.IsObj("param:2")}, Min: 1}.Check(r)
+				core.CallArgs{Fn: mp + "isExpired", Callee: []string{"types.(*Transaction).IsExpire"}, What: "parameters passed through in order",
+					Args: map[int]core.ExprPred{0: core.IsObj("param:0"), 1: core.IsObj("param:2"), 2: core.IsObj("param:3")}, Min: 1}.Check(r)
+				// "not expired" is only answered after BOTH the pool-age test and IsExpire said so
+				core.Dominated{Fn: mp + "isExpired", Spec: &core.FlowSpec{
+					Calls: []core.CallGuard{isFalse("not-expired", "types.(*Transaction).IsExpire")},
+					Conds: []core.CondGuard{core.RelGuard("age-fresh", core.Mentions(mp+"Item.EnterTime"), token.LSS, core.IsObj(mp+"mempoolExpiredInterval"))},
+				}, Sink: core.SinkPred{Label: "return other than true", Match: func(fl *core.Flow, n *core.GNode) bool {
+					return n.Kind == core.KReturn && core.ClassifyReturn(fl, n, -1) != core.True
+				}}, Need: []Fact{"age-fresh", "not-expired"}, Min: 1}.Check(r)
 			}),
 		},
 	})
